@@ -67,6 +67,7 @@ type framesRule struct {
 	loops      *loopInfo
 	eventCanon string
 	ctxCanons  []string
+	ctxOracle  *pubCtxOracle
 	hookIdx    map[string]int
 	// inventories
 	spawnSites, addSites, doneSites, lockSites, invSites, hookSites, obsSites, phSites, persistSites map[token.Pos]bool
@@ -325,7 +326,7 @@ func (r *framesRule) OnInstr(e *Engine, st *State, fc *FrameCtx, in ssa.Instruct
 			if a := e.CanonS(fc, c.Args[3]); a != r.eventCanon {
 				e.Report(st, in.Pos(), "PublishContext/persist/event-arg", "the persist function receives %s, not the published event", a)
 			}
-			if a := e.CanonS(fc, c.Args[1]); !r.isPublishCtx(a) {
+			if a := e.CanonS(fc, c.Args[1]); !r.isPublishCtxV(e, fc, c.Args[1]) {
 				e.Report(st, in.Pos(), "PublishContext/persist/ctx-arg", "the persist function receives %s, not the publish context", a)
 			}
 		}
@@ -345,6 +346,19 @@ func (r *framesRule) OnInstr(e *Engine, st *State, fc *FrameCtx, in ssa.Instruct
 		}
 	}
 	return false
+}
+
+// isPublishCtxV: by canonical name along the path, or structurally (a context that went
+// through a pipeline helper such as beginPublish).
+func (r *framesRule) isPublishCtxV(e *Engine, fc *FrameCtx, v ssa.Value) bool {
+	if r.isPublishCtx(e.CanonS(fc, v)) {
+		return true
+	}
+	if r.ctxOracle == nil {
+		r.ctxOracle = newPubCtxOracle(e.P, r.R, e.cells)
+	}
+	av, _ := e.ArgValue(fc, v)
+	return r.ctxOracle.is(v) || r.ctxOracle.is(av)
 }
 
 func (r *framesRule) isPublishCtx(c string) bool {
@@ -385,14 +399,15 @@ func (r *framesRule) checkHookArgs(e *Engine, st *State, fc *FrameCtx, in ssa.In
 	off := 0
 	if ctxHook {
 		off = 1
-		if a := e.CanonS(fc, args[0]); !r.isPublishCtx(a) {
+		if a := e.CanonS(fc, args[0]); !r.isPublishCtxV(e, fc, args[0]) {
 			e.Report(st, in.Pos(), "PublishContext/hooks/"+name+"/ctx-arg", "the %s hook receives %s, not the publish context", name, a)
 		}
 	}
 	// type argument: reflect.TypeOf(event)
 	okType := false
-	if call, ok := stripConv(args[off]).(*ssa.Call); ok && calleeName(call.Common()) == "reflect.TypeOf" && len(call.Common().Args) == 1 {
-		if e.CanonS(fc, call.Common().Args[0]) == r.eventCanon {
+	tv, tfc := e.ArgValue(fc, args[off]) // through the parameters of pipeline helpers
+	if call, ok := stripConv(tv).(*ssa.Call); ok && calleeName(call.Common()) == "reflect.TypeOf" && len(call.Common().Args) == 1 {
+		if e.CanonS(tfc, call.Common().Args[0]) == r.eventCanon {
 			okType = true
 		}
 	}
